@@ -52,6 +52,13 @@ WS(prefix, s) ==
                 subs |-> IF prefix = "call" THEN {Sub("access", NameOf(rid), <<>>), Sub("call", NameOf(rid), Raw(meth))}
                          ELSE {Sub("auth", NameOf(rid), Raw(meth))}]
 
+(* a rid supplied by a service (reference value in a model; resource of a call response): followed only if  *)
+(* it is a valid resource id; a {cid} tag in it is expanded like in any rid of the connection               *)
+SVC(kind, s) ==
+    [valid |-> ValidRID(s),
+     subs |-> IF kind = "svcref" THEN {Sub("get", NameOf(s), <<>>)}
+              ELSE {Sub("access", NameOf(s), <<>>), Sub("get", NameOf(s), <<>>)}]
+
 (* HTTP: the path after the API prefix as symbols; Pxx are percent-encodings *)
 Unesc(x) == CASE x = "P2E" -> "DOT" [] x = "P2A" -> "STAR" [] x = "P3E" -> "GT" [] x = "P3F" -> "QM"
               [] x = "P20" -> "SP" [] x = "P0A" -> "LF" [] x = "P2F" -> "SLASHCH" [] x = "PFF" -> "BADUTF" [] OTHER -> x
